@@ -434,6 +434,8 @@ RULES = [
     Rule("C07.L4", rule_L4, floor=5, doc="dataset-level tokenization (siblings)"),
     Rule("C07.L5", rule_L5, floor=6, doc="parser / writer coordinate grammar and conversion loops"),
     Rule("C07.L6", rule_L6, floor=6, doc="parsing pipeline"),
+    Rule("C07.L8", lambda ctx: __import__("sa.rules.c13", fromlist=["x"]).neighbour_queries_rule("C07.L8", [], [], which={"as_adj_list", "from_adj_list"})(ctx), floor=1,
+         doc="parsing rebuilds the maze from its adjacency list: as_adj_list / from_adj_list by bounded abstract evaluation on every small maze, cyclic ones included (as C13.V8)"),
     Rule("C07.L7", lambda ctx: (__import__("sa.rules.c13", fromlist=["x"]).judge_is_connection(
         ctx, "is_connection reads connection_list[direction, lesser endpoint] of each edge (C13.V1 re-judged: the modular adjacency list marks an edge as "
              "connection / wall through it, and must agree with the legacy list)"),
